@@ -106,6 +106,13 @@ type C13Input struct {
 	// mixin with DisposedHandlers bound and its dispose handlers are registered
 	// through amhelp.DisposeBind (state-based disposal), whatever the trigger
 	Mixin bool `json:"mixin,omitempty"`
+	// Prologue: before the outstanding waiters are registered, a multi-state
+	// WhenTime({D,E},{1,1}) is completed in two separate transitions while a
+	// single-state WhenTime1(D,1000) is pending on the shared state D; that
+	// second waiter stays outstanding and is reported as one more waiter of
+	// kind WhenTime at the end of the Pre list (D, E are extra states nothing
+	// else uses)
+	Prologue bool `json:"prologue,omitempty"`
 }
 
 type C13Obs struct {
@@ -298,6 +305,10 @@ func c13New(in *C13Input, obs *C13Obs, id string) (*c13Mach, []*atomic.Int32) {
 	ctx, cancel := context.WithCancel(context.Background())
 	schema := am.Schema{"A": {}, "B": {}, "C": {Multi: true}}
 	names := am.S{"A", "B", "C"}
+	if in.Prologue {
+		schema["D"], schema["E"] = am.State{}, am.State{Multi: true}
+		names = append(names, "D", "E")
+	}
 	mixin := in.Mode == 6 || in.Mixin
 	if mixin {
 		schema = am.SchemaMerge(schema, ssam.DisposedSchema, am.Schema{"Start": {}})
@@ -365,6 +376,17 @@ func c13Exec(in *C13Input) (obs *C13Obs) {
 	m := x.m
 	// outstanding waiters
 	pre := make([]<-chan struct{}, len(in.Pre))
+	if in.Prologue {
+		multi := m.WhenTime(am.S{"D", "E"}, am.Time{1, 1}, nil)
+		victim := m.WhenTime1("D", 1000, nil)
+		m.Add1("D", nil)
+		m.Add1("E", nil)
+		if !c13Closed(multi) {
+			obs.Err = "prologue: the multi-state WhenTime did not complete"
+		}
+		// reported as one more outstanding WhenTime waiter (see c13Coq)
+		pre = append(pre, victim)
+	}
 	for i, k := range in.Pre {
 		_, pre[i] = x.call(k)
 	}
@@ -646,11 +668,20 @@ func c13Coq(in *C13Input, obs *C13Obs) string {
 		"k_post := %s; k_load := %d; o_disposed := %s; o_pre_closed := %s; o_th_res := %s; o_th_closed := %s; "+
 		"o_hcounts := %s; o_post_res := %s; o_post_closed := %s; o_load_bad := %s; o_load_stuck := %d; "+
 		"o_trig_bad := %d; o_gor := %d; o_err := %s |}",
-		in.Mode, coqBool(in.Handlers), coqNatList(in.Pre), in.NDisp, coqNatList(in.Threads), coqNatList(in.Schedule),
+		in.Mode, coqBool(in.Handlers), coqNatList(c13PreKindsOf(in)), in.NDisp, coqNatList(in.Threads), coqNatList(in.Schedule),
 		coqNatList(in.Post), in.Load, coqBool(obs.Disposed), bl(obs.PreClosed), coqNatList(obs.ThRes),
 		coqNatList(obs.ThClosed), coqNatList(obs.HCounts), coqNatList(obs.PostRes), coqNatList(obs.PostClosed),
 		coqNatList(obs.LoadBad), obs.LoadStuck, obs.TrigBad, obs.Gor, coqBool(obs.Err != ""))
 	return b.String()
+}
+
+// c13PreKindsOf: the kinds of the outstanding waiters as the model sees them
+// (the prologue's pending waiter is one more WhenTime)
+func c13PreKindsOf(in *C13Input) []int {
+	if !in.Prologue {
+		return in.Pre
+	}
+	return append(append([]int{}, in.Pre...), c13WhenTime)
 }
 
 func init() { register("C13", runC13) }
@@ -731,6 +762,7 @@ func c13Gen(r *Rng, gated bool) *C13Input {
 			in.Load = r.Range(1, 2)
 		}
 		in.Start = r.Chance(40)
+		in.Prologue = r.Chance(40)
 		if in.Mode == 4 && r.Chance(50) {
 			// state-based disposal handlers, disposal started by the machine itself
 			// (parent-context cancel -> Disposing -> the registered handlers ->
@@ -974,6 +1006,7 @@ func runC13(c *Ctx) error {
 		out.Count("state_handlers", fmt.Sprint(in.Handlers))
 		out.Count("load_goroutines", fmt.Sprint(in.Load))
 		out.Count("start_state", fmt.Sprint(in.Start))
+		out.Count("whentime_prologue", fmt.Sprint(in.Prologue))
 		out.Count("disposed_mixin", fmt.Sprint(in.Mode == 6 || in.Mixin))
 		out.Count("disposed", fmt.Sprint(obs.Disposed))
 		for _, k := range in.Threads {
